@@ -259,9 +259,9 @@ Proof.
   destruct (negb ok); [apply emits_ret|]. destruct f; [apply emits_stuck|exact IH].
 Qed.
 
-Lemma emits_write_loop fuel k : forall remaining, emits (engine_kind 2) (write_loop fuel k remaining).
+Lemma emits_write_loop fuel k : forall hs remaining, emits (engine_kind 2) (write_loop fuel hs k remaining).
 Proof.
-  induction fuel as [|f IH]; intros remaining; cbn [write_loop]; [apply emits_ret|].
+  induction fuel as [|f IH]; intros hs remaining; cbn [write_loop]; [apply emits_bad|].
   destruct (remaining =? 0); [apply emits_ret|].
   apply emits_bind; [apply emits_get_tls|]. intros t.
   destruct (negb ((t_pend t =? -1) || (t_pend t =? remaining))); [apply emits_stuck|].
@@ -269,9 +269,9 @@ Proof.
   destruct (res <=? 0).
   - apply emits_bind; [apply emits_upd_tls|]. intros _.
     apply emits_bind; [apply emits_handle_result|]. intros ok.
-    destruct (negb ok); [apply emits_ret|]. destruct f; [apply emits_stuck|apply IH].
+    destruct (negb ok); [apply emits_ret|]. destruct hs; [apply emits_stuck|apply IH].
   - apply emits_bind; [apply emits_upd_tls|]. intros _.
-    destruct (remaining <? res); [apply emits_stuck|]. destruct f; [apply emits_stuck|apply IH].
+    destruct (remaining <? res); [apply emits_stuck|]. apply IH.
 Qed.
 
 (* Send / SendSome make SSL_write_ex calls only: they never take application data out of the engine;
@@ -280,7 +280,8 @@ Theorem send_only_writes : forall k size T, emits (engine_kind 2) (tls_send k si
 Proof.
   intros k size T. unfold tls_send. apply emits_bind; [apply emits_upd_tls|]. intros _.
   unfold tls_write. apply emits_bind; [apply emits_handle_last_error|]. intros ok.
-  destruct ok; [|apply emits_ret]. apply emits_bind; [apply emits_write_loop|]. intros rem. apply emits_ret.
+  destruct ok; [|apply emits_ret]. apply emits_bind; [apply emits_quiet, quiet_get_ext|]. intros x.
+  apply emits_bind; [apply emits_write_loop|]. intros rem. apply emits_ret.
 Qed.
 
 Theorem receive_only_reads : forall k size T, emits (engine_kind 1) (tls_receive k size T).
